@@ -83,14 +83,16 @@ func decTrace(in []int64) traceIn {
 }
 
 type placementGroup struct {
-	newBinds int     // pods of the group bound by this action
-	quick    []int64 // nodes of pods of the group that went through the nomination quick path
-	rest     []int64 // placements of the group without those pods
-	sigD11   bool    // recorded holds every placement within the limit but a lower HyperNode does too
-	sub      bool
-	limit    int64
-	recorded int64
-	nodes    []int64
+	newBinds       int     // pods of the group bound by this action
+	quick          []int64 // nodes of pods of the group that went through the nomination quick path
+	rest           []int64 // placements of the group without those pods
+	sigD11         bool    // recorded holds every placement within the limit but a lower HyperNode does too
+	sigD11rest     bool    // the D11 mechanism for the placements without the quick-path pods
+	recCoversQuick bool    // the recorded HyperNode holds the quick-path pods' nodes: the quick path (co-)wrote the record
+	sub            bool
+	limit          int64
+	recorded       int64
+	nodes          []int64
 }
 type traceOut struct {
 	unknownName      bool
@@ -503,12 +505,21 @@ func runTrace(in []int64) []int64 {
 			}
 		}
 		sort.Slice(g.rest, func(i, j int) bool { return g.rest[i] < g.rest[j] })
+		g.recCoversQuick = len(g.quick) > 0 && coversAll(recorded, g.quick)
 		// D11 mechanism: the record holds every placement within the limit, yet a HyperNode of a
 		// lower tier holds them too (a domain wider than the placements was chosen and recorded)
 		if rec, ok := ssn.HyperNodes[recorded]; ok && len(g.nodes) > 0 && int64(rec.Tier()) <= limit && coversAll(recorded, g.nodes) {
 			for name, hn := range ssn.HyperNodes {
 				if hn.Tier() < rec.Tier() && coversAll(name, g.nodes) {
 					g.sigD11 = true
+				}
+			}
+		}
+		// the same D11 mechanism for the group without the quick-path pods
+		if rec, ok := ssn.HyperNodes[recorded]; ok && len(g.rest) > 0 && int64(rec.Tier()) <= limit && coversAll(recorded, g.rest) {
+			for name, hn := range ssn.HyperNodes {
+				if hn.Tier() < rec.Tier() && coversAll(name, g.rest) {
+					g.sigD11rest = true
 				}
 			}
 		}
@@ -610,6 +621,20 @@ func traceLaws(law func(lsel int, lin []int64, sig string)) {
 		if len(g.quick) > 0 {
 			sig = "C14-D12-nomination-quick-path-ignores-topology"
 			law(108, mk(g, g.rest), "")
+			if !o.notReady {
+				// the record of the remaining pods: D12 explains a wrong record only when the
+				// quick path (co-)wrote it, i.e. when it holds the quick-path pods' nodes
+				sigRest := ""
+				if g.recCoversQuick {
+					sigRest = sig
+				}
+				law(109, mk(g, g.rest), sigRest)
+				sig113rest := sigRest
+				if sig113rest == "" && g.sigD11rest {
+					sig113rest = "C14-D11-recorded-allocated-hypernode-is-lca-of-chosen-domains-not-of-placements"
+				}
+				law(113, mk(g, g.rest), sig113rest)
+			}
 		}
 		law(108, lin, sig)
 		if o.notReady {
